@@ -9,6 +9,13 @@ def repo_commits(prefix):
     return [l.split()[0] for l in out.splitlines() if l.split(" ", 1)[1].startswith(prefix)]
 
 CLAIMS = {
+    "C17": dict(
+        level="exploration",
+        technique="model-based property testing: LFO driven directly against an independent waveform/phase model over generated set_*/update histories, and modulator -> parameter chains through the real renderer with probe modulators and probe effects recording per-internal-buffer values",
+        text="LFOs (four waveforms, frequencies to 1e5 Hz, signed amplitudes/offsets/phases, tweens, set_phase/set_waveform) must stay within offset +- |amplitude| and on the documented curve after every update; through the renderer, probe-effect parameters linked to tweeners, LFOs and probe modulators via generated mappings (inverted ranges, all easings) must equal the mapping of the modulator's value of the same internal buffer, hold after the modulator is dropped, and probe modulators must be updated exactly once per buffer with the right dt. Search with shrinking.",
+        note="The tweener's curve is C06's. The order-dependent one-buffer lag of a modulator linked to a later-created modulator is a known finding excluded by construction.",
+        design="5/C17",
+    ),
     "C05": dict(
         level="exploration",
         technique="model-based stateful property testing of real clocks through the renderer (clock integrator model, event-buffer prediction) plus schedule enumeration of ClockHandle::time() against the audio thread's stores through hook points H1 (baton-passing between two real threads)",
